@@ -40,6 +40,11 @@ CHECKS = {
                      'statistics, confusion-matrix aggregates binary/multiclass/top-k, samplewise classification, top-k retrieval incl. ragged rankings, text n-gram and '
                      'pattern frequencies) and every composition of the rows into shards x batches (incl. empty shards), z3 proves on every feasible path that the merged '
                      'result equals the one-batch result and that per-row values do not depend on batch mates. Bounded (3 rows quick / 4 thorough); rounding is outside by the property\'s own wording.'),
+    'C11': dict(engine='symx', level='other', design_ref='DESIGN.md#c11', note=SX_NOTE, technique=SX_TECH,
+                text='For the same accumulators as C01, states built from symbolic batches (incl. the fresh state): z3 proves per path associativity, commutativity '
+                     '(order-insensitive ones), neutrality of the fresh state on both sides, that merge leaves the merged-in state intact and that later updates of either side '
+                     'do not leak into the other (real numpy buffers are shared/mutated, so aliasing is observable), and that result() is repeatable. FixedSizeSample: operand/size/'
+                     'membership/count law with a nondeterministic RNG stub. Bounded (1-2 rows per state).'),
 }
 NA = {}
 PENDING = 'check not built yet (see DESIGN.md build order)'
